@@ -32,6 +32,7 @@ BODIES = {
     'semicolon-bait': [b'new x = 1', b'y = 2', b'foo()', b'return 1', b'}'],
     'brace-bait': [b'if (a)', b'   b = 1;', b'else', b'   c = 2;', b'while (x) y--;', b'return (1);', b'int short unsigned x;;;', b'enum { A, B };'],
     'include-bait': [b'#include "b.h"', b'#include "a.h"', b'#include "a.h"', b'import z;', b'import a;', b'using B;', b'using A;'],
+    'continuations': [b'#define   SWAP(a,b)   \\', b'   do { t = a;   \\', b'\ta = b; b = t; } while (0)', b'x = 1 +   \\', b'    2;', b'// c   \\', b'   still'],
     'single': [b'x'],
     'single-space-line': [b' '],
 }
@@ -212,6 +213,8 @@ CURATED = {
     'indent': {'indent_columns': '7', 'indent_with_tabs': '1', 'output_tab_size': '3', 'input_tab_size': '5', 'indent_braces': 'true', 'indent_class': 'true',
                'indent_namespace': 'true', 'indent_col1_comment': 'true', 'indent_single_newlines': 'true', 'indent_switch_case': '3', 'pp_indent': 'add',
                'pp_indent_count': '3', 'pp_indent_at_level': 'true', 'indent_cmt_with_tabs': 'true'},
+    'lexer': {'disable_processing_nl_cont': 'true', 'pp_ignore_define_body': 'true', 'tok_split_gte': 'true', 'enable_digraphs': 'true',
+              'use_form_feed_no_more_as_whitespace_character': 'true', 'align_nl_cont': '1', 'sp_before_nl_cont': 'force'},
     'sp-remove': None, 'sp-force': None, 'nl-remove': None, 'nl-add': None,
 }
 
@@ -407,8 +410,10 @@ def check(ctx):
     opts = registry.options(b)
     files = [(rel, lang) for rel, lang in corpus.files() if lang in HOSTS or lang == 'OC+']
     cur = {n: curated(opts, n) for n in CURATED}
-    pool = [o for o in opts if o.cls in ('whitespace', 'code_modifying', 'comment_string_rewriting') and o.type != 'string'
-            and o.name not in ('newlines',)]
+    pool = [o for o in opts if (o.cls in ('whitespace', 'code_modifying', 'comment_string_rewriting') and o.type != 'string'
+                                 and o.name not in ('newlines',))
+            or o.name in ('disable_processing_nl_cont', 'pp_ignore_define_body', 'tok_split_gte', 'enable_digraphs',
+                          'use_form_feed_no_more_as_whitespace_character')]
     bodynames = sorted(BODIES)
     tasks = []
 
